@@ -44,7 +44,7 @@ func (c05) ChildTimeout(tier string) time.Duration {
 	return 15 * time.Minute
 }
 
-var c05Classes = []string{"valid-program", "edge-character", "token-mutation", "line-deletion", "truncation", "invalid-by-construction", "raw-bytes", "blank-input", "reader-split"}
+var c05Classes = []string{"valid-program", "oversized-token", "edge-character", "token-mutation", "line-deletion", "truncation", "invalid-by-construction", "raw-bytes", "blank-input", "reader-split"}
 
 func (c05) Thresholds(tier string) map[string]int64 {
 	th := map[string]int64{
@@ -80,13 +80,14 @@ func (c05) Thresholds(tier string) map[string]int64 {
 		th["class:"+cl] = 1000
 	}
 	th["class:valid-program"] = 500
+	th["class:oversized-token"] = 500
 	th["class:valid-multi-reader-program"] = 250
 	th["class:multi-reader-one-invalid"] = 250
 	return th
 }
 
 func (c05) Rule() string {
-	return "case = 50 inputs derived from one generated valid program rendered in a PRNG layout: the program itself (must load); a valid program spread over 2-4 readers (must load) and the same readers with one of them made invalid by construction; token-level mutations (delete / duplicate / swap / insert / replace from a dictionary of << >> { } === --- -> <<if <<endif>> <<else>> # \\\\ \" ( , [ space/tab, stray > ...); line deletions; truncations at PRNG byte offsets; mutations that are invalid by construction (unbalanced <<endif>>, {1 +}, missing ===, tab+space indentation of a statement); raw byte strings with invalid UTF-8, NUL and lone CR; empty and white-space-only inputs; a valid script with one stray character (form feed, vertical tab, NEL, NBSP, ideographic space, line separator, BOM, NUL, zero-width space) or a white-space run at its very start or very end, or blank lines followed by an indented first header; each input also cut at PRNG byte offsets into 2-4 readers; per case also: no reader at all (must be an error), the valid program / a mutation / a truncation delivered by a reader that returns 1-7 bytes per call, (0,nil) now and then and the last bytes together with io.EOF (same verdict as the string), and a reader that fails after a PRNG number of bytes - 0, all of them, or right after a complete node - alone and next to a healthy reader (must be an error). Validity oracle: an independent parse in the harness with the grammar's lexer and parser and the harness's own counting error listeners - valid iff no lexer error, no parser error, the parser stopped at end of input, and - judged by the harness itself, not by the lexer - no line that carries a statement is indented with both tabs and blanks; a multi-reader input is valid iff every reader is. The oracle is cross-checked by two labels (generated programs are valid, the by-construction mutations are invalid); a disagreement there is a harness error (inconclusive). Verdict: NewDialogueRunner returns (panics are caught; a call that does not return is caught by the child watchdog and confirmed alone) and err == nil iff the input is valid. Seeds: 20 strings per case over arbitrary bytes, length 0-40: an error iff a character outside [0-9a-z] occurs, never a panic. Non-trivial: a mutation the oracle rejects, a valid program in a non-canonical layout, or a multi-reader split. Distinct by hash of the readers."
+	return "case = 50 inputs derived from one generated valid program rendered in a PRNG layout: the program itself (must load); a valid program spread over 2-4 readers (must load) and the same readers with one of them made invalid by construction; token-level mutations (delete / duplicate / swap / insert / replace from a dictionary of << >> { } === --- -> <<if <<endif>> <<else>> # \\\\ \" ( , [ space/tab, stray > ...); line deletions; truncations at PRNG byte offsets; mutations that are invalid by construction (unbalanced <<endif>>, {1 +}, missing ===, tab+space indentation of a statement); raw byte strings with invalid UTF-8, NUL and lone CR; empty and white-space-only inputs; a valid script with one statement that carries an oversized token (a number of 300-700 digits, a fraction of hundreds of digits, a string of 12-70 KiB, a variable name or command word of thousands of characters); a valid script with one stray character (form feed, vertical tab, NEL, NBSP, ideographic space, line separator, BOM, NUL, zero-width space) or a white-space run at its very start or very end, or blank lines followed by an indented first header; each input also cut at PRNG byte offsets into 2-4 readers; per case also: no reader at all (must be an error), the valid program / a mutation / a truncation delivered by a reader that returns 1-7 bytes per call, (0,nil) now and then and the last bytes together with io.EOF (same verdict as the string), and a reader that fails after a PRNG number of bytes - 0, all of them, or right after a complete node - alone and next to a healthy reader (must be an error). Validity oracle: an independent parse in the harness with the grammar's lexer and parser and the harness's own counting error listeners - valid iff no lexer error, no parser error, the parser stopped at end of input, and - judged by the harness itself, not by the lexer - no line that carries a statement is indented with both tabs and blanks; a multi-reader input is valid iff every reader is. The oracle is cross-checked by two labels (generated programs are valid, the by-construction mutations are invalid); a disagreement there is a harness error (inconclusive). Verdict: NewDialogueRunner returns (panics are caught; a call that does not return is caught by the child watchdog and confirmed alone) and err == nil iff the input is valid. Seeds: 20 strings per case over arbitrary bytes, length 0-40: an error iff a character outside [0-9a-z] occurs, never a panic. Non-trivial: a mutation the oracle rejects, a valid program in a non-canonical layout, or a multi-reader split. Distinct by hash of the readers."
 }
 
 func (c05) Assumptions() []string {
@@ -326,6 +327,17 @@ func (p c05) judge(c *core.Ctx, class string, readers []string, label string) bo
 	}
 	if label != "" {
 		c.Feature("label-checks")
+		if label == "valid" && !valid {
+			// the oracle parses with the grammar's own lexer and parser: if it refuses a program that is valid
+			// by construction (the same generator and renderer C01 and C08 load thousands of times), either
+			// the harness is wrong or the lexer / parser is. NewDialogueRunner decides which.
+			_, err, pan := mon.Create(nil, "k3", readers)
+			if err != nil || pan != "" {
+				c.Violate("a program that is valid by construction is refused (by the lexer/parser under the harness's listeners and by NewDialogueRunner alike)", map[string]any{
+					"readers": readers, "readers_quoted": quoteAll(readers), "error": fmt.Sprint(err), "panic": pan})
+				return false
+			}
+		}
 		if label == "valid" && !valid || label == "invalid" && valid {
 			c.Inconclusive(fmt.Sprintf("validity oracle and by-construction label disagree (label %s) on %q", label, strings.Join(readers, "|")))
 			return false
@@ -403,7 +415,32 @@ func (p c05) Run(c *core.Ctx) {
 	}
 	for i := 0; i < 50; i++ {
 		var in, class, label string
-		switch r.PickW(34, 8, 14, 14, 12, 6, 12, 8) {
+		switch r.PickW(34, 8, 14, 14, 12, 6, 12, 8, 3) {
+		case 8:
+			// one statement with an oversized token right after the first body delimiter: a number of 300-700
+			// digits (beyond the range of a double), a fraction of hundreds of digits, a very long string,
+			// variable name or command word
+			digits := strings.Repeat(r.Pick("9", "1", "123456789"), r.Range(300, 700))
+			long := []string{
+				"<<set $huge to " + digits + ">>",
+				"L {" + digits + "} x",
+				"<<set $tiny to 0." + strings.Repeat("0", r.Range(300, 500)) + "1>>",
+				"<<set $text to \"" + strings.Repeat("lorem ", r.Range(2000, 12000)) + "\">>",
+				"<<set $" + strings.Repeat("v", r.Range(1000, 6000)) + " to 1>>",
+				"<<act " + digits + " " + strings.Repeat("w", 5000) + ">>",
+				"<<if " + digits + " > 1>>\n<<endif>>",
+			}[r.Intn(7)]
+			eol := "\n"
+			if strings.Contains(base, "\r\n") {
+				eol = "\r\n"
+			} else if strings.Contains(base, "\r") {
+				eol = "\r"
+			}
+			in = strings.Replace(base, eol+"---"+eol, eol+"---"+eol+strings.ReplaceAll(long, "\n", eol)+eol, 1)
+			class = "oversized-token"
+			if in != base {
+				c.Feature("oversized-token-planted")
+			}
 		case 7:
 			// one stray character (white space that is not a blank, tab, CR or LF; BOM; NUL) or a white-space
 			// run at the very start or the very end of a valid script, or an indented first header after
